@@ -114,6 +114,8 @@ def zygote():
                 for k, v in job.get("env", {}).items():
                     if v is None: os.environ.pop(k, None)
                     else: os.environ[k] = v
+                efd = os.open(job["out"] + ".stderr", os.O_WRONLY | os.O_CREAT | os.O_TRUNC, 0o644)
+                os.dup2(efd, 2)          # joblib's own warnings / tracebacks of tolerated load errors
                 with open(job["out"], "w") as fh:
                     try:
                         main(job["spec"], fh)
